@@ -10,15 +10,16 @@ import (
 )
 
 type vFlatSys struct {
-	c      *vCtx
-	metric DistanceKind
-	dim    int
-	ids    []uint32
-	vals   [][]float32
-	qs     []vVecQuery
-	idx    *FlatIndex
-	m      *vVecModel
-	cfg    string
+	c         *vCtx
+	metric    DistanceKind
+	dim       int
+	ids       []uint32
+	vals      [][]float32
+	qs        []vVecQuery
+	idx       *FlatIndex
+	m         *vVecModel
+	cfg       string
+	inRecheck bool
 }
 
 func newFlatSys(c *vCtx, metric DistanceKind, dim int, nids int) *vFlatSys {
@@ -129,13 +130,7 @@ func (s *vFlatSys) Apply(op vOp, hist []vOp, check bool) {
 }
 
 func (s *vFlatSys) observe(hist []vOp) {
-	canonBefore := vCanonVec(s.idx)
-	defer func() {
-		s.c.Evaluations++
-		if after := vCanonVec(s.idx); after != canonBefore {
-			s.c.Violation("search-modified-index", "", s.cfg, vHistStrings(hist), fmt.Sprintf("index state before the queries [%s] after [%s]", canonBefore, after))
-		}
-	}()
+	defer s.recheck(hist)
 	stateKey := ""
 	for qi, q := range s.qs {
 		s.c.Evaluations++
@@ -173,6 +168,23 @@ func (s *vFlatSys) observe(hist []vOp) {
 		}
 		s.c.Outcome(fmt.Sprintf("%v", vResIDs(res)))
 	}
+}
+
+// recheck: searching must not change later answers — after the whole query alphabet has
+// been evaluated, the first queries are evaluated once more against the model (a purely
+// behavioural form of "a search does not modify the index").
+func (s *vFlatSys) recheck(hist []vOp) {
+	if s.inRecheck {
+		return
+	}
+	s.inRecheck = true
+	defer func() { s.inRecheck = false }()
+	all := s.qs
+	if len(all) > 48 {
+		s.qs = all[:48]
+	}
+	s.observe(hist)
+	s.qs = all
 }
 
 func (s *vFlatSys) Key() string {
